@@ -165,6 +165,7 @@ def reach_avoiding(body, start_bbs, barrier_bbs, cut_edges=frozenset()):
     return seen
 
 
+JOINERS = re.compile(r"(future::(try_join\d?|join\d?|try_join_all|join_all|select|try_select)|parallel_join|SeqJoin::try_join)$")
 PASS_THROUGH = re.compile(r"(Instrument::instrument|Instrument::in_current_span|FutureExt::(boxed|map|then|fuse|inspect|map_err|map_ok)|TryFutureExt::(map_err|map_ok|and_then|into_future|err_into)|std::boxed::Box::<T>::pin|assert_send)$")
 
 
@@ -194,6 +195,8 @@ def await_ready_block(body, fut_local, max_hops=12):
                 if any(n.endswith("IntoFuture::into_future") or n.endswith("Pin::<Ptr>::new_unchecked") or n.endswith("Pin::<Ptr>::new") or n.endswith("as_mut") or PASS_THROUGH.search(n) for n in names):
                     if t["args"] and F.op_local(t["args"][0]) in cur:
                         nxt.add(t["d"][0])
+                if any(JOINERS.search(n) for n in names) and any(F.op_local(a) in cur for a in t["args"]):
+                    nxt.add(t["d"][0])
                 if any(n.endswith("Future::poll") for n in names) and t["args"] and F.op_local(t["args"][0]) in cur and t.get("x", "").startswith("d:Await"):
                     poll_bb = i
                     res = t["d"][0]
@@ -243,6 +246,8 @@ def expr_of(body, op, depth=0, max_depth=30):
                 return ("const", k["v"])
         if "fn" in k:
             return ("fn", k["fn"])
+        if "static" in k:
+            return ("static", k["static"])
         return ("const", k.get("def", k.get("s", k.get("ty"))))
     p = F.op_place(op) if isinstance(op, dict) else op
     if p is None:
